@@ -255,7 +255,7 @@ class Eraser {
     for (const a of rest) {
       const e = a.expression
       // a constant addition ('a' + 'b') has no observable evaluation, so passing it again is harmless
-      const simple = isObj(e) && (e.type === 'Identifier' || isLitSum(e) || (e.type === 'TemplateLiteral' && e.expressions.length === 0))
+      const simple = isObj(e) && (e.type === 'Identifier' || isLitSum(e) || (e.type === 'TemplateLiteral' && e.expressions.length === 0) || (e.type === 'UnaryExpression' && e.operator === 'void' && isObj(e.argument) && /Literal$/.test(e.argument.type)))
       if (!simple) { rec.restOk = false; this.problem('hook-arg-not-simple', name, `hook operand ${summ(e)} is an expression that would be evaluated a second time`) }
       if (a.spread && !(this.isTemp(e)) && !isLitSum(e)) { rec.restOk = false; this.problem('hook-arg-spread', name, `hook operand ...${summ(e)} re-spreads something that is not a temporary`) }
       if (a.spread && this.isTemp(e)) { const b = this.lookup(e.value, env); if (b && !b.spreadOf) this.problem('spread-not-materialised', 'hookarg', `hook operand ...${e.value} spreads a temporary that is not a fresh array copy`) }
@@ -298,7 +298,8 @@ class Eraser {
       expect = [plainArg(F)].concat(cargs.length ? [cargs[0]] : [])
       if (cargs.length > 1) {
         const arr = unparen(cargs[1].expression)
-        if (arr.type === 'ArrayExpression' && !cargs[1].spread) for (const el of arr.elements) { if (el) expect.push(el) } else expect.push(cargs[1])
+        // a hole of the argument array is the argument value `undefined`
+        if (arr.type === 'ArrayExpression' && !cargs[1].spread) for (const el of arr.elements) expect.push(el || { spread: null, expression: { type: '$Hole' } }); else expect.push(cargs[1])
       }
     }
     // apply(R, [A...], surplus...): the surplus arguments are evaluated but are NOT arguments of the method. The
@@ -492,6 +493,8 @@ function isLitSum (e) {
   return e.type === 'BinaryExpression' && e.operator === '+' && isLitSum(e.left) && isLitSum(e.right)
 }
 function simpleEq (a, b) {
+  // a hole is matched by any spelling of undefined
+  if (isObj(b) && b.type === '$Hole') return isObj(a) && ((a.type === 'Identifier' && a.value === 'undefined') || (a.type === 'UnaryExpression' && a.operator === 'void'))
   if (!isObj(a) || !isObj(b) || a.type !== b.type) return false
   if (a.type === 'Identifier') return a.value === b.value
   if (isLitSum(a) && isLitSum(b)) return JSON.stringify(stripSpans(a)) === JSON.stringify(stripSpans(b))
